@@ -261,6 +261,9 @@ class ExprMixin:
         raise Unsupported("`is` on %r / %r" % (a, b))
 
     def contains(self, container, x, node=None):
+        from .strings import SplitVal
+        if isinstance(container, SplitVal):
+            return container.contains(x, None, self)
         if isinstance(container, PyList):
             return z3.Or([self.py_eq(x, it) for it in container.items] + [z3.BoolVal(False)])
         if isinstance(container, PyDict):
@@ -298,6 +301,9 @@ class ExprMixin:
             yield st1, self.binop(node.op, vs[0], vs[1], st1, node)
 
     def binop(self, op, a, b, st, node):
+        from . import pathmodel
+        if isinstance(op, ast.Div) and pathmodel.is_path(a) and isinstance(b, Val) and isinstance(b.ty, TStr):
+            return pathmodel.join(self, st, a, b, self.path_roots(st))
         if isinstance(op, ast.Add):
             if isinstance(a, PyList) and isinstance(b, PyList):
                 return PyList(a.items + b.items)
@@ -321,6 +327,14 @@ class ExprMixin:
         if isinstance(op, ast.Sub) and isinstance(a.ty, TSet):
             return Val(a.ty, [z3.SetDifference(a.t, b.t)])
         raise Unsupported("binary op %s on %r, %r" % (type(op).__name__, a, b), node)
+
+    def path_roots(self, st):
+        """root paths in scope: the `path` field of the receiver of the current method"""
+        roots = []
+        selfv = st.env.get(st.env.get("__selfname__", "self"))
+        if isinstance(selfv, Val) and isinstance(selfv.ty, TRef) and self.field_type(selfv.ty.cls, "path") is not None:
+            roots.append(self.heap_read(st, selfv, "path").t)
+        return roots
 
     def str_repeat(self, a, b, st):
         f = z3.Function("str_repeat", z3.StringSort(), z3.IntSort(), z3.StringSort())
@@ -350,6 +364,14 @@ class ExprMixin:
                 return
             yield st, Callable_("classattr", attr, obj=obj)
             return
+        from . import pathmodel
+        if pathmodel.is_path(obj):
+            if attr == "parent":
+                yield st, pathmodel.parent(self, st, obj, self.path_roots(st))
+                return
+            if attr == "name":
+                yield st, pathmodel.name(self, st, obj)
+                return
         if isinstance(obj, ExcVal):
             if attr in obj.fields:
                 yield st, obj.fields[attr]
